@@ -125,3 +125,96 @@ def _replay(model, contract):
 
 for _c in CONTRACTS.values():
     _c["replay_hook"] = _replay
+
+
+# ---- the output aggregation (third pass of PlotData.__init__): an aggregate of two outputs 'x' and 'y' of one population
+_DIMLESS_OUT = "units[0] in ['', FS.QUANTITY_TYPE_FRACTION, FS.QUANTITY_TYPE_PROPORTION, FS.QUANTITY_TYPE_PROBABILITY, FS.QUANTITY_TYPE_RATE]"
+
+
+def _make_env_out(method):
+    def make(it):
+        from pyvc.core import LArr
+
+        n = z3.Int("n_times")
+        it.facts.append(n >= 0)
+        f = {k: z3.Function(k, z3.IntSort(), z3.RealSort()) for k in ("vals_x", "vals_y", "size_x", "size_y")}
+        arr = lambda k: LArr(n, lambda i, g=f[k]: g(i if z3.is_expr(i) else z3.IntVal(i)), fresh_alloc=False)
+        X, Y, SX, SY = arr("vals_x"), arr("vals_y"), arr("size_x"), arr("size_y")
+        return {"self": None, "output": {"agg": ["x", "y"]}, "pop_label": "p", "output_aggregation": method, # a third output 'z' is present in the same call but is not part of the aggregate
+                "data_dict": {"x": X, "y": Y, "z": arr("size_x")}, "compsize": {"x": SX, "y": SY, "z": SX},
+                "output_units": {"x": "u", "y": "u", "z": "other"}, "output_timescales": {"x": None, "y": None, "z": 1.0}, "aggregated_outputs": {"p": {}}, "aggregated_units": {}, "aggregated_timescales": {},
+                "X": X, "Y": Y, "SX": SX, "SY": SY, "n": n}
+
+    return make
+
+
+_agg = "aggregated_outputs['p']['agg']"
+_osum = "all(%s[i] == X[i] + Y[i] for i in range(n))" % _agg
+_oavg = "all(%s[i] == (X[i] + Y[i]) / 2 for i in range(n))" % _agg
+for _m, _tag in ((None, "default"), ("sum", "sum"), ("average", "average"), ("weighted", "weighted")):
+    if _m is None:
+        _ens = [("C20.default_output_aggregate_of_a_number_quantity_is_the_sum", "implies(not DIMLESS, %s)" % _osum),
+                ("C20.default_output_aggregate_of_a_dimensionless_quantity_is_the_average", "implies(DIMLESS, %s)" % _oavg)]
+    elif _m == "sum":
+        _ens = [("C20.summed_output_aggregate_is_the_sum_of_its_parts", _osum)]
+    elif _m == "average":
+        _ens = [("C20.averaged_output_aggregate_is_the_mean_of_its_parts", _oavg),
+                ("C20.averaged_output_aggregate_lies_between_its_parts", "all(min(X[i], Y[i]) <= %s[i] and %s[i] <= max(X[i], Y[i]) for i in range(n))" % (_agg, _agg))]
+    else:
+        _ens = [("C20.weighted_output_aggregate_uses_the_compartment_sizes", "all(%s[i] * (SX[i] + SY[i]) == X[i] * SX[i] + Y[i] * SY[i] for i in range(n))" % _agg)]
+    CONTRACTS["plotting:PlotData.__init__#output_aggregate_%s" % _tag] = dict(
+        schema=schema, fragment={"iter": "outputs", "body_contains": "this_output_aggregation"}, make_env=_make_env_out(_m),
+        ghost_params={"DIMLESS": "bool"}, stubs={_DIMLESS_OUT: "DIMLESS"}, call_stubs={"isna": (lambda it, x: x is None)},
+        requires=(["all(SX[i] > 0 and SY[i] > 0 for i in range(n))"] if _m == "weighted" else []),
+        ensures=_ens + [("C20.aggregate_keeps_the_common_unit", "aggregated_units['agg'] == 'u'")], defined_props=["C20"], method=_m)
+
+
+def _replay_out(model, contract):
+    """replay of the output aggregation on real numpy arrays inside the real module namespace"""
+    import ast
+    import inspect
+    import textwrap
+
+    import numpy as np
+    import atomica.plotting as apl
+
+    def num(t):
+        v = model.eval(t, model_completion=True)
+        if z3.is_int_value(v):
+            return v.as_long()
+        try:
+            return float(v.numerator_as_long()) / float(v.denominator_as_long())
+        except Exception:
+            v = v.approx(12)
+            return float(v.numerator_as_long()) / float(v.denominator_as_long())
+
+    n = max(1, min(4, int(num(z3.Int("n_times")))))
+    arr = lambda k: np.array([num(z3.Function(k, z3.IntSort(), z3.RealSort())(z3.IntVal(i))) for i in range(n)], dtype=float)
+    X, Y, SX, SY = arr("vals_x"), arr("vals_y"), arr("size_x"), arr("size_y")
+    dimless = bool(z3.is_true(model.eval(z3.Bool("DIMLESS"), model_completion=True)))
+    method = contract["method"]
+    if method == "weighted":
+        SX, SY = np.abs(SX) + 1.0, np.abs(SY) + 1.0
+    src = textwrap.dedent(inspect.getsource(apl.PlotData.__init__))
+    loops = [x for x in ast.walk(ast.parse(src)) if isinstance(x, ast.For) and ast.unparse(x.iter) == "outputs" and "this_output_aggregation" in "\n".join(ast.unparse(b) for b in x.body)]
+    once = ast.For(target=ast.Name(id="_once", ctx=ast.Store()), iter=ast.List(elts=[ast.Constant(0)], ctx=ast.Load()), body=loops[0].body, orelse=[])
+    unit = apl.FS.QUANTITY_TYPE_PROBABILITY if dimless else apl.FS.QUANTITY_TYPE_NUMBER
+    env = dict(vars(apl))
+    env.update(self=None, output={"agg": ["x", "y"]}, pop_label="p", output_aggregation=method, data_dict={"x": X.copy(), "y": Y.copy(), "z": SX.copy()}, compsize={"x": SX.copy(), "y": SY.copy(), "z": SX.copy()},
+               output_units={"x": unit, "y": unit, "z": "other"}, output_timescales={"x": None, "y": None, "z": 1.0}, aggregated_outputs={"p": {}}, aggregated_units={}, aggregated_timescales={})
+    pre = dict(method=method, dimensionless=dimless, x=X.tolist(), y=Y.tolist(), size_x=SX.tolist(), size_y=SY.tolist())
+    try:
+        with np.errstate(all="ignore"):
+            exec(compile(ast.fix_missing_locations(ast.Module(body=[once], type_ignores=[])), "<output aggregation of PlotData.__init__>", "exec"), env)
+    except Exception as e:
+        return dict(verdict="violates", detail="real code raised %s: %s" % (type(e).__name__, e), prestate=pre)
+    got = np.asarray(env["aggregated_outputs"]["p"]["agg"], dtype=float)
+    eff = method or ("average" if dimless else "sum")
+    want = X + Y if eff == "sum" else ((X + Y) / 2 if eff == "average" else (X * SX + Y * SY) / (SX + SY))
+    ok = got.shape == want.shape and np.allclose(got, want, rtol=1e-9, atol=1e-12)
+    return dict(verdict="holds" if ok else "violates", detail="output aggregate '%s' of x=%r, y=%r reported as %r, documented value %r" % (eff, X.tolist(), Y.tolist(), got.tolist(), want.tolist()), prestate=pre)
+
+
+for _k, _c in CONTRACTS.items():
+    if "#output_aggregate_" in _k:
+        _c["replay_hook"] = _replay_out
